@@ -5,15 +5,39 @@ Import ListNotations.
 Open Scope N_scope.
 
 (* Resuming a disconnected session: the same session id first, then every message queued meanwhile,
-   in order, once; the session keeps its room; nothing stays queued; it no longer expires. *)
+   in order, once; the session keeps its room; nothing stays queued; it no longer expires.
+   (queue_closes s: the queue holds a bye, or a disinvite from the room the session is in; such a
+   message closes the connection it is written to, at the resume like at any other time: next theorem.) *)
 Theorem C06_resume_flushes_queue : forall h c cn n s,
   aget h.(h_conns) c = Some cn -> cn.(c_sess) = None -> get_sess h n = Some s ->
   is_virtual s.(s_kind) = false -> s.(s_conn) = None -> throttled h cn.(c_addr) ACT_RESUME = false ->
+  queue_closes s = false ->
   let '(h', outs) := step h (OHello c (HResume (IdPriv n))) in
   outs = ToConn c (SHello n (sess_userid h n s)) :: map (ToConn c) s.(s_pending) /\
   (exists s', get_sess h' n = Some s' /\ s'.(s_conn) = Some c /\ s'.(s_pending) = [] /\ s'.(s_room) = s.(s_room)) /\
   nmem n h'.(h_expired) = false.
 Proof. exact resume_flushes_queue. Qed.
+(* The queue holds a closing message: the resume still writes the session id and the queue, in order,
+   once, up to and including the first closing message (upto_closing; what was queued after it is not
+   written: the close frame has been sent); then the connection is closed (nothing else is written to
+   any connection) and the session is gone. *)
+Theorem C06_resume_closing_queue : forall h c cn n s,
+  aget h.(h_conns) c = Some cn -> cn.(c_sess) = None -> get_sess h n = Some s ->
+  is_virtual s.(s_kind) = false -> s.(s_conn) = None -> throttled h cn.(c_addr) ACT_RESUME = false ->
+  queue_closes s = true ->
+  let '(h', outs) := step h (OHello c (HResume (IdPriv n))) in
+  (exists rest, outs = ToConn c (SHello n (sess_userid h n s)) :: map (ToConn c) (upto_closing s.(s_room) s.(s_pending)) ++ Closed c :: rest /\
+                (forall c' m, ~ In (ToConn c' m) rest)) /\
+  get_sess h' n = None.
+Proof. exact resume_closing_queue. Qed.
+(* upto_closing: the whole queue when nothing in it closes the connection; otherwise the prefix of the
+   queue that ends with the first closing message *)
+Theorem C06_upto_closing_none : forall s, queue_closes s = false -> upto_closing (s_room s) (s_pending s) = s_pending s.
+Proof. exact upto_closing_none. Qed.
+Theorem C06_upto_closing_spec : forall room l, existsb (closing_in room) l = true ->
+  exists pre m post, l = pre ++ m :: post /\ upto_closing room l = pre ++ [m] /\
+                     closing_in room m = true /\ existsb (closing_in room) pre = false.
+Proof. exact upto_closing_spec. Qed.
 
 (* While disconnected, a message addressed to the session is appended to its queue (nothing is
    written anywhere, nothing is dropped; enqueue keeps a single chat-refresh notice: "repeated
@@ -96,19 +120,64 @@ Proof. exact send_to_connected. Qed.
 (* 3. The connection is cut, the session has no connection after each of the following ops, then it
    resumes: the answer is the same session id followed by exactly what was appended to the queue
    since the cut, in order, once; the queue is empty afterwards, the session keeps its room, is
-   attached to the new connection and no longer expires. *)
+   attached to the new connection and no longer expires -- when nothing that was appended closes the
+   connection it is written to (closing_in room m: m is a bye, or a disinvite from `room`; the room
+   is the one the session is in at the resume). *)
 Theorem C06_drop_then_resume : forall q h0 c0 cn0 sid ops c cn,
   Good h0 -> aget (h_conns h0) c0 = Some cn0 -> c_sess cn0 = Some sid ->
   stays_disc q sid h0 (ODrop c0 :: ops) ->
   let hj := runx q h0 (ODrop c0 :: ops) in
   aget (h_conns hj) c = Some cn -> c_sess cn = None -> throttled hj (c_addr cn) ACT_RESUME = false ->
   (forall s, get_sess hj sid = Some s -> is_virtual (s_kind s) = false) ->
+  (forall s, get_sess hj sid = Some s -> existsb (closing_in (s_room s)) (appended q sid h0 (ODrop c0 :: ops)) = false) ->
   exists s, get_sess hj sid = Some s /\ s_conn s = None /\
   let '(h', outs) := step hj (OHello c (HResume (IdPriv sid))) in
   outs = ToConn c (SHello sid (sess_userid hj sid s)) :: map (ToConn c) (appended q sid h0 (ODrop c0 :: ops)) /\
   (exists s', get_sess h' sid = Some s' /\ s_conn s' = Some c /\ s_pending s' = [] /\ s_room s' = s_room s) /\
   nmem sid (h_expired h') = false.
 Proof. exact drop_then_resume. Qed.
+(* ... and when something that was appended does close the connection (a bye, a disinvite from the
+   session's room): the resume still answers with the session id followed by exactly what was appended
+   since the cut, in order, once, up to and including the first closing message (C06_upto_closing_spec);
+   then the connection is closed, nothing else is written to any connection, and the session is gone
+   for EVERY continuation: not live, referenced nowhere, its resume id refused (as after a bye, 4. below). *)
+Theorem C06_drop_then_resume_closing : forall q h0 c0 cn0 sid ops c cn,
+  Good h0 -> aget (h_conns h0) c0 = Some cn0 -> c_sess cn0 = Some sid ->
+  stays_disc q sid h0 (ODrop c0 :: ops) ->
+  let hj := runx q h0 (ODrop c0 :: ops) in
+  aget (h_conns hj) c = Some cn -> c_sess cn = None -> throttled hj (c_addr cn) ACT_RESUME = false ->
+  (forall s, get_sess hj sid = Some s -> is_virtual (s_kind s) = false) ->
+  (forall s, get_sess hj sid = Some s -> existsb (closing_in (s_room s)) (appended q sid h0 (ODrop c0 :: ops)) = true) ->
+  let o := OHello c (HResume (IdPriv sid)) in
+  exists s, get_sess hj sid = Some s /\ s_conn s = None /\
+  (exists rest, snd (step hj o) =
+     ToConn c (SHello sid (sess_userid hj sid s)) :: map (ToConn c) (upto_closing (s_room s) (appended q sid h0 (ODrop c0 :: ops))) ++ Closed c :: rest /\
+     (forall c' m, ~ In (ToConn c' m) rest)) /\
+  get_sess (fst (step hj o)) sid = None /\ unreferenced (fst (step hj o)) sid /\
+  forall ops', let h2 := runx q (fst (stepx q hj o)) ops' in
+    get_sess h2 sid = None /\ unreferenced h2 sid /\
+    forall c' cn', aget (h_conns h2) c' = Some cn' -> c_sess cn' = None ->
+      let '(h3, outs) := step h2 (OHello c' (HResume (IdPriv sid))) in
+      outs = [ToConn c' (SError (if throttled h2 cn'.(c_addr) ACT_RESUME then E_too_many_requests else E_no_such_session))] /\
+      h_sessions h3 = h_sessions h2.
+Proof. exact drop_then_resume_closing. Qed.
+(* the same from any state in which the session is live and disconnected, with whatever is queued *)
+Theorem C06_resume_closing_is_final : forall q h c cn sid s,
+  Good h -> aget (h_conns h) c = Some cn -> c_sess cn = None -> get_sess h sid = Some s ->
+  is_virtual (s_kind s) = false -> s_conn s = None -> throttled h (c_addr cn) ACT_RESUME = false ->
+  queue_closes s = true ->
+  let o := OHello c (HResume (IdPriv sid)) in
+  (exists rest, snd (step h o) =
+     ToConn c (SHello sid (sess_userid h sid s)) :: map (ToConn c) (upto_closing (s_room s) (s_pending s)) ++ Closed c :: rest /\
+     (forall c' m, ~ In (ToConn c' m) rest)) /\
+  get_sess (fst (step h o)) sid = None /\ unreferenced (fst (step h o)) sid /\
+  forall ops', let h2 := runx q (fst (stepx q h o)) ops' in
+    get_sess h2 sid = None /\ unreferenced h2 sid /\
+    forall c' cn', aget (h_conns h2) c' = Some cn' -> c_sess cn' = None ->
+      let '(h3, outs) := step h2 (OHello c' (HResume (IdPriv sid))) in
+      outs = [ToConn c' (SError (if throttled h2 cn'.(c_addr) ACT_RESUME then E_too_many_requests else E_no_such_session))] /\
+      h_sessions h3 = h_sessions h2.
+Proof. exact resume_closing_is_final. Qed.
 
 (* 4. After the bye of the session's connection, for EVERY continuation: the session is not live, is
    referenced nowhere (member of no room), and its resume id is refused (no_such_session, or
@@ -150,6 +219,7 @@ Example C06_example_cut_two_messages_resume :
   stays_disc false 1 h0 (ODrop 1 :: ex_seg) /\
   (exists cn, aget (h_conns hj) 3 = Some cn /\ c_sess cn = None /\ throttled hj (c_addr cn) ACT_RESUME = false) /\
   (forall s, get_sess hj 1 = Some s -> is_virtual (s_kind s) = false) /\
+  (forall s, get_sess hj 1 = Some s -> existsb (closing_in (s_room s)) (appended false 1 h0 (ODrop 1 :: ex_seg)) = false) /\
   appended false 1 h0 (ODrop 1 :: ex_seg) = [SMsg 0 0 2 8 None 41; SMsg 0 0 2 8 None 42] /\
   snd (step hj (OHello 3 (HResume (IdPriv 1)))) =
     [ToConn 3 (SHello 1 7); ToConn 3 (SMsg 0 0 2 8 None 41); ToConn 3 (SMsg 0 0 2 8 None 42)].
@@ -161,6 +231,54 @@ Proof.
     repeat split; (eexists; split; [vm_compute; reflexivity|reflexivity]). }
   split; [eexists; split; [vm_compute; reflexivity|split; [reflexivity|vm_compute; reflexivity]]|].
   split; [intros s Hs; vm_compute in Hs; injection Hs as <-; reflexivity|].
+  split; [intros s Hs; vm_compute in Hs; injection Hs as <-; vm_compute; reflexivity|].
+  split; vm_compute; reflexivity.
+Qed.
+(* The closing case is not vacuous either: two sessions in room 5 (room session ids 11 and 12), the
+   first one's connection is cut, the second sends it a message, the backend disinvites room session 11
+   from room 5, the second sends another message, a new connection resumes.  Every hypothesis of
+   C06_drop_then_resume_closing holds (quiescent semantics: the disinvite reaches the session through
+   the bus); all three are queued; the resume writes the hello, the first message and the disinvite;
+   the message queued after the disinvite is NOT written; then the connection is closed and the
+   session is gone (its room-mate is told that it left). *)
+Definition dis_pre : list op :=
+  [OConnect 1 100; OHello 1 (HV1 0 7 false); OJoin 1 5 11 (RepOk None 0);
+   OConnect 2 101; OHello 2 (HV1 0 8 false); OJoin 2 5 12 (RepOk None 0)].
+Definition dis_seg : list op :=
+  [OMsg 2 (RSession (IdPub 1)) 41; OApi 0 0 5 (ADisinvite [] [11]); OMsg 2 (RSession (IdPub 1)) 42; OConnect 3 102].
+Example C06_example_queued_disinvite_resume :
+  let h0 := qrun (init [0] false) dis_pre in
+  let hj := runx true h0 (ODrop 1 :: dis_seg) in
+  reachable_q h0 /\
+  (exists cn0, aget (h_conns h0) 1 = Some cn0 /\ c_sess cn0 = Some 1) /\
+  stays_disc true 1 h0 (ODrop 1 :: dis_seg) /\
+  (exists cn, aget (h_conns hj) 3 = Some cn /\ c_sess cn = None /\ throttled hj (c_addr cn) ACT_RESUME = false) /\
+  (forall s, get_sess hj 1 = Some s -> is_virtual (s_kind s) = false) /\
+  (forall s, get_sess hj 1 = Some s -> existsb (closing_in (s_room s)) (appended true 1 h0 (ODrop 1 :: dis_seg)) = true) /\
+  option_map s_room (get_sess hj 1) = Some (Some (0, 5)) /\
+  appended true 1 h0 (ODrop 1 :: dis_seg) = [SMsg 0 0 2 8 None 41; SDisinvite 5; SMsg 0 0 2 8 None 42] /\
+  upto_closing (Some (0, 5)) (appended true 1 h0 (ODrop 1 :: dis_seg)) = [SMsg 0 0 2 8 None 41; SDisinvite 5] /\
+  snd (step hj (OHello 3 (HResume (IdPriv 1)))) =
+    [ToConn 3 (SHello 1 7); ToConn 3 (SMsg 0 0 2 8 None 41); ToConn 3 (SDisinvite 5); Closed 3;
+     ToBackend (0, 1, 1, 5, 1000011, 1)] /\
+  snd (qstep hj (OHello 3 (HResume (IdPriv 1)))) =
+    [ToConn 3 (SHello 1 7); ToConn 3 (SMsg 0 0 2 8 None 41); ToConn 3 (SDisinvite 5); Closed 3;
+     ToBackend (0, 1, 1, 5, 1000011, 1); ToConn 2 (SLeave [1])] /\
+  ~ In (ToConn 3 (SMsg 0 0 2 8 None 42)) (snd (qstep hj (OHello 3 (HResume (IdPriv 1))))) /\
+  get_sess (fst (qstep hj (OHello 3 (HResume (IdPriv 1))))) 1 = None /\
+  aget (h_conns (fst (qstep hj (OHello 3 (HResume (IdPriv 1)))))) 3 = None.
+Proof.
+  cbv zeta. split; [exists [0], false, dis_pre; reflexivity|].
+  split; [eexists; split; [vm_compute; reflexivity|reflexivity]|].
+  split.
+  { unfold dis_seg. cbn [stays_disc].
+    repeat split; (eexists; split; [vm_compute; reflexivity|reflexivity]). }
+  split; [eexists; split; [vm_compute; reflexivity|split; [reflexivity|vm_compute; reflexivity]]|].
+  split; [intros s Hs; vm_compute in Hs; injection Hs as <-; reflexivity|].
+  split; [intros s Hs; vm_compute in Hs; injection Hs as <-; vm_compute; reflexivity|].
+  split; [vm_compute; reflexivity|]. split; [vm_compute; reflexivity|]. split; [vm_compute; reflexivity|].
+  split; [vm_compute; reflexivity|]. split; [vm_compute; reflexivity|].
+  split; [vm_compute; intros H; repeat (destruct H as [H|H]; [discriminate H|]); exact H|].
   split; vm_compute; reflexivity.
 Qed.
 (* and for finality: a session with a connection (bye), a session marked for expiry (tick) *)
@@ -199,6 +317,9 @@ Print Assumptions C06_enqueue_first_chat_refresh.
 Print Assumptions C06_enqueue_merges_repeated_chat_refresh.
 Print Assumptions C06_room_deleted_while_disconnected_repaired.
 Print Assumptions C06_resume_flushes_queue.
+Print Assumptions C06_resume_closing_queue.
+Print Assumptions C06_upto_closing_none.
+Print Assumptions C06_upto_closing_spec.
 Print Assumptions C06_queued_while_disconnected.
 Print Assumptions C06_resume_needs_private_id.
 Print Assumptions C06_close_is_final.
@@ -211,8 +332,11 @@ Print Assumptions C06_queue_over_segment.
 Print Assumptions C06_send_to_disconnected.
 Print Assumptions C06_send_to_connected.
 Print Assumptions C06_drop_then_resume.
+Print Assumptions C06_drop_then_resume_closing.
+Print Assumptions C06_resume_closing_is_final.
 Print Assumptions C06_bye_is_final.
 Print Assumptions C06_expiry_is_final.
 Print Assumptions C06_cut_marks_for_expiry.
 Print Assumptions C06_example_cut_two_messages_resume.
+Print Assumptions C06_example_queued_disinvite_resume.
 Print Assumptions C06_example_final.
